@@ -114,6 +114,7 @@ type RV struct {
 	I   int64
 	S   string
 	Tup []RV
+	Fn  *ast.FuncLit // K == "func": a local closure
 }
 
 var rvUnknown = RV{K: "unknown"}
@@ -306,6 +307,8 @@ func (in *Interp) Eval(e ast.Expr) RV {
 		return in.binary(x)
 	case *ast.CallExpr:
 		return in.call(x)
+	case *ast.FuncLit:
+		return RV{K: "func", Fn: x}
 	}
 	return rvUnknown
 }
@@ -430,6 +433,37 @@ func (in *Interp) call(c *ast.CallExpr) RV {
 				if t, ok := in.NodeType(recv.S); ok {
 					return rvType(t)
 				}
+			}
+			return rvUnknown
+		}
+	}
+	// a local closure (`numeric := func() bool { return isNumber(l) && isNumber(r) }`): its body
+	// is interpreted where it is called, over the variables it captures (writes to them inside
+	// the closure are not carried out)
+	if id, ok := Unparen(c.Fun).(*ast.Ident); ok && in.depth < 8 {
+		if v, ok := in.Env[in.obj(id)]; ok && v.K == "func" && v.Fn != nil {
+			sub := &Interp{P: in.P, Rel: in.Rel, Info: in.Info, Env: map[types.Object]RV{}, depth: in.depth + 1, NodeType: in.NodeType, Hook: in.Hook}
+			for k, val := range in.Env {
+				sub.Env[k] = val
+			}
+			i := 0
+			if v.Fn.Type.Params != nil {
+				for _, f := range v.Fn.Type.Params.List {
+					for _, nm := range f.Names {
+						if i < len(c.Args) {
+							a := in.Eval(c.Args[i])
+							if a.K == "panic" {
+								return a
+							}
+							sub.Env[in.Info.Defs[nm]] = a
+						}
+						i++
+					}
+				}
+			}
+			st, r := sub.execList(v.Fn.Body.List)
+			if st == stReturn {
+				return r
 			}
 			return rvUnknown
 		}
